@@ -641,3 +641,230 @@ func TestC15_FailedThenGood(t *testing.T) {
 	}
 	col("C15").Completed("TestC15_FailedThenGood")
 }
+
+// ---------------------------------------------------------------------------------------------
+// Shared input buffer: a caller that reads successive documents into ONE buffer and hands the previous result back as
+// the reuse argument (the usual way of using the reuse parameter). Whatever the parser remembers about an earlier
+// input - cached copies of the message tail, slices into the buffer, lengths - must not survive into the next call,
+// in particular not when the next document has the same length and layout as the previous one.
+
+type c15SharedBuf struct {
+	Docs  [][]byte `json:"docs"`
+	ND    []bool   `json:"nd"`
+	Mode  []int    `json:"mode"`  // 0 WithCopyStrings(true), 1 WithCopyStrings(false), 2 no option
+	ByVal []bool   `json:"byval"` // pass a value copy of the previous result as the reuse argument
+	Shift []int    `json:"shift"` // start offset of the document inside the shared buffer (0..63)
+}
+
+// sameLengthSibling returns text with digits and letters changed but every token's length, kind and position kept.
+func sameLengthSibling(text []byte, seed uint64) []byte {
+	out := append([]byte(nil), text...)
+	next := func() uint64 {
+		seed += 0x9e3779b97f4a7c15
+		z := seed
+		z = (z ^ (z >> 30)) * 0xbf58476d1ce4e5b9
+		z = (z ^ (z >> 27)) * 0x94d049bb133111eb
+		return z ^ (z >> 31)
+	}
+	inStr, inExp := false, false
+	for i := 0; i < len(out); i++ {
+		c := out[i]
+		if inStr {
+			switch {
+			case c == '\\':
+				if i+1 < len(out) && out[i+1] == 'u' {
+					i += 5
+				} else {
+					i++
+				}
+			case c == '"':
+				inStr = false
+			case c >= 'a' && c <= 'z':
+				if next()%3 != 0 {
+					out[i] = byte('a' + next()%26)
+				}
+			}
+			continue
+		}
+		switch {
+		case c == '"':
+			inStr = true
+			inExp = false
+		case c == 'e' || c == 'E':
+			inExp = true // exponent digits stay (the value has to remain finite); also covers the e of true/false
+		case c >= '1' && c <= '9':
+			if !inExp && next()%3 != 0 {
+				out[i] = byte('1' + next()%9)
+			}
+		case c == '0' || c == '+' || c == '-' || c == '.':
+		default:
+			inExp = false
+		}
+	}
+	return out
+}
+
+func c15SharedBufCheck(c c15SharedBuf) error {
+	max := 0
+	for _, d := range c.Docs {
+		if len(d) > max {
+			max = len(d)
+		}
+	}
+	buf := make([]byte, max+64)
+	var pj *simdjson.ParsedJson
+	var prevCanon []byte // what pj exposed when it was read, if it was parsed with copying
+	for i, d := range c.Docs {
+		nd, mode, byVal, shift := c.ND[i%len(c.ND)], c.Mode[i%len(c.Mode)], c.ByVal[i%len(c.ByVal)], c.Shift[i%len(c.Shift)]%64
+		where := fmt.Sprintf("document %d of %d in the shared buffer (nd=%v mode=%d byval=%v offset=%d, %d bytes %q)", i, len(c.Docs), nd, mode, byVal, shift, len(d), clip(d))
+		// the caller refills its buffer
+		for k := range buf {
+			buf[k] = ' '
+		}
+		in := buf[shift : shift+len(d)]
+		copy(in, d)
+		if pj != nil && prevCanon != nil {
+			after, err := canonOf(pj)
+			if err != nil || !bytes.Equal(after, prevCanon) {
+				return fmt.Errorf("%s: the previous result was parsed with string copying, but refilling the input buffer changed it: %v %s", where, err, diffCanon(prevCanon, after))
+			}
+		}
+		copyMode := mode != 1
+		var fresh *simdjson.ParsedJson
+		var ferr error
+		if nd {
+			fresh, ferr = simdjson.ParseND(append([]byte(nil), d...), nil, simdjson.WithCopyStrings(copyMode))
+		} else {
+			fresh, ferr = simdjson.Parse(append([]byte(nil), d...), nil, simdjson.WithCopyStrings(copyMode))
+		}
+		reuse := pj
+		if byVal && pj != nil {
+			cp := *pj
+			reuse = &cp
+		}
+		var got *simdjson.ParsedJson
+		var gerr error
+		switch {
+		case mode == 2 && nd:
+			got, gerr = simdjson.ParseND(in, reuse)
+		case mode == 2:
+			got, gerr = simdjson.Parse(in, reuse)
+		case nd:
+			got, gerr = simdjson.ParseND(in, reuse, simdjson.WithCopyStrings(copyMode))
+		default:
+			got, gerr = simdjson.Parse(in, reuse, simdjson.WithCopyStrings(copyMode))
+		}
+		if (ferr == nil) != (gerr == nil) {
+			return fmt.Errorf("%s: with the reused object err=%v, on fresh objects err=%v", where, gerr, ferr)
+		}
+		if gerr != nil {
+			prevCanon = nil
+			if byVal && reuse != nil {
+				pj = reuse
+			}
+			continue
+		}
+		want, err := canonOf(fresh)
+		if err != nil {
+			return bugf("%s: fresh result not traversable: %v", where, err)
+		}
+		if !nd {
+			if m, err := rj.ParseStrict(d); err == nil && rj.ResolveNumbers(m) == nil {
+				if ref := canonNode(nil, m, canonOpts{}); !bytes.Equal(ref, want) {
+					return fmt.Errorf("%s: fresh parse differs from the reference document: %s", where, diffCanon(ref, want))
+				}
+			}
+		}
+		gotC, err := canonOf(got)
+		if err != nil {
+			return fmt.Errorf("%s: result obtained with reuse is not traversable: %v", where, err)
+		}
+		if !bytes.Equal(want, gotC) {
+			return fmt.Errorf("%s: result obtained with reuse differs from a fresh parse: %s", where, diffCanon(want, gotC))
+		}
+		if _, err := tapeCheck(got, true); err != nil {
+			return fmt.Errorf("%s: tape format: %v", where, err)
+		}
+		it := got.Iter()
+		if mj, err := it.MarshalJSON(); err != nil {
+			return fmt.Errorf("%s: MarshalJSON: %v", where, err)
+		} else if m2, err := parseModelRoots(mj, nd); err != nil {
+			return fmt.Errorf("%s: marshalled text is not valid: %v: %q", where, err, clip(mj))
+		} else if m1, err := parseModelRoots(d, nd); err == nil {
+			for k := range m1 {
+				if k >= len(m2) {
+					return fmt.Errorf("%s: marshalled text has %d roots, the document %d", where, len(m2), len(m1))
+				}
+				if err := eqNumeric(m1[k], m2[k], "root"); err != nil {
+					return fmt.Errorf("%s: marshalled text denotes another document: %v", where, err)
+				}
+			}
+		}
+		pj = got
+		prevCanon = nil
+		if copyMode {
+			prevCanon = want
+		}
+	}
+	return nil
+}
+
+var c15SharedBufRun = register("C15", "shared-buffer", c15SharedBufCheck)
+
+func TestC15_SharedBuffer(t *testing.T) {
+	runRapid(t, "C15_SharedBuffer", nCases(12_000, 200_000), func(t *rapid.T) {
+		var c c15SharedBuf
+		n := rapid.IntRange(2, 6).Draw(t, "ndocs")
+		siblings, failures := 0, 0
+		var prev []byte
+		prevND := false
+		for i := 0; i < n; i++ {
+			var d []byte
+			nd := false
+			k := rapid.IntRange(0, 9).Draw(t, "dockind")
+			switch {
+			case prev != nil && k < 5:
+				// same length, same layout, other digits and letters
+				d = sameLengthSibling(prev, rapid.Uint64().Draw(t, "sibseed"))
+				nd = prevND
+				siblings++
+			case k < 7:
+				text, _ := render(genDoc(t, pickProfile(t)), genLayout(t, false))
+				d = text
+			case k < 8:
+				lines, crlf := genStreamLines(t, 4)
+				d = buildStream(lines, crlf, false)
+				d = bytes.TrimSpace(d)
+				nd = true
+			default:
+				var class string
+				d, class = genReuseInput(t)
+				if !strings.HasPrefix(class, "valid") {
+					failures++
+				}
+			}
+			if len(d) == 0 {
+				d = []byte(`{"empty":"replacement"}`)
+			}
+			c.Docs = append(c.Docs, d)
+			c.ND = append(c.ND, nd)
+			c.Mode = append(c.Mode, rapid.IntRange(0, 2).Draw(t, "mode"))
+			c.ByVal = append(c.ByVal, rapid.IntRange(0, 3).Draw(t, "byval") == 0)
+			c.Shift = append(c.Shift, []int{0, 0, 1, 31, 32, 63}[rapid.IntRange(0, 5).Draw(t, "shift")])
+			prev, prevND = d, nd
+		}
+		// siblings are only interesting at the same place in the buffer
+		if rapid.Bool().Draw(t, "sameplace") {
+			for i := range c.Shift {
+				c.Shift[i] = c.Shift[0]
+			}
+		}
+		c15SharedBufRun(t, c)
+		b, _ := json.Marshal(c)
+		col("C15").Eval(siblings > 0 || failures > 0, evidHash(b), "kind:shared-buffer", fmt.Sprintf("siblings:%d", bucket(siblings)), boolClass("has-failing-doc", failures > 0))
+		col("C15").Sample(func() interface{} {
+			return map[string]interface{}{"kind": "shared-buffer", "docs": len(c.Docs), "first": clip(c.Docs[0]), "siblings": siblings, "modes": c.Mode}
+		})
+	})
+	col("C15").Completed("TestC15_SharedBuffer")
+}
